@@ -34,6 +34,7 @@ def generate(seed, stratum, tier):
     objs = aw.default_objects(nobj)
     for o in objs:
       o['spied'] = rng.random() < 0.6
+      o['instrumented'] = rng.random() < 0.8      # ActiveObject(instrumented=False): no spy, no trace
       o['react'] = {}
     kind = rng.choice(['fifo', 'lifo', None])
     c0 = [['start', i] for i in range(nobj)] + [['await_idle'], ['barrier', nobj]]
@@ -41,9 +42,9 @@ def generate(seed, stratum, tier):
     for i in range(nobj):
       k = kind if rng.random() < 0.8 else rng.choice(['fifo', 'lifo'])
       if rng.random() < 0.5:
-        clients[i].append(['subscribe', i, 'SD', k])
+        clients[i].append(['subscribe', i, 'SD', k, rng.choice(['event', 'event', 'int'])])
       else:
-        objs[i]['react']['SB'] = [{'op': 'subscribe', 'sig': 'SD', 'kind': k, 'id': 1, 'max': 1}]
+        objs[i]['react']['SB'] = [{'op': 'subscribe', 'sig': 'SD', 'kind': k, 'id': 1, 'max': 1, 'form': rng.choice(['event', 'event', 'int'])}]
         clients[i].append(['post_fifo', i, 'SB'])
     if clients[0][-1][0] != 'await_idle':
       pass
@@ -54,6 +55,7 @@ def generate(seed, stratum, tier):
   objs = aw.default_objects(nobj)
   for i, o in enumerate(objs):
     o['spied'] = rng.random() < 0.6
+    o['instrumented'] = rng.random() < 0.8
     o['react'] = {}
   c = []
   started = set()
@@ -62,7 +64,7 @@ def generate(seed, stratum, tier):
   # phase A: before start
   for i in order:
     if rng.random() < 0.35:
-      c.append(['subscribe', i, 'SD', rng.choice(['fifo', 'lifo', None])])
+      c.append(['subscribe', i, 'SD', rng.choice(['fifo', 'lifo', None]), rng.choice(['event', 'event', 'int'])])
     if rng.random() < 0.2:
       c.append(['publish', i, 'SD', rng.choice([None, 1])])
     c.append(['start', i])
@@ -71,14 +73,15 @@ def generate(seed, stratum, tier):
   for i in order:
     r = rng.random()
     if r < 0.45:
-      c.append(['subscribe', i, 'SD', rng.choice(['fifo', 'lifo', None])])
+      c.append(['subscribe', i, 'SD', rng.choice(['fifo', 'lifo', None]), rng.choice(['event', 'event', 'int'])])
       if rng.random() < 0.4:
         # a publication made as soon as subscribe() has returned (the chart may be busy: a post first)
         if rng.random() < 0.5:
           c.append(['post_fifo', i, 'SA'])
         c.append(['publish', rng.randrange(nobj), 'SD', rng.choice([None, 1])])
     elif r < 0.7:
-      objs[i]['react']['SB'] = [{'op': 'subscribe', 'sig': 'SD', 'kind': rng.choice(['fifo', 'lifo', None]), 'id': 1, 'max': 1}]
+      objs[i]['react']['SB'] = [{'op': 'subscribe', 'sig': 'SD', 'kind': rng.choice(['fifo', 'lifo', None]), 'id': 1, 'max': 1,
+                                 'form': rng.choice(['event', 'event', 'int'])}]
       c.append(['post_fifo', i, 'SB'])
     if rng.random() < 0.3:
       c.append(['await_idle'])
